@@ -1,4 +1,5 @@
 mod apps;
+mod appsfdl;
 mod codec;
 mod decoder;
 mod diag;
@@ -31,6 +32,7 @@ impl Executor for Stateless {
 fn engine(name: &str) -> Option<(fn(&mut Vec<String>, u64, bool), Box<dyn Executor>)> {
     match name {
         "apps" => Some((apps::gen, Box::new(apps::Exec::new()))),
+        "appsfdl" => Some((appsfdl::gen, Box::new(apps::Exec::new()))),
         "codec" => Some((codec::gen, Box::new(Stateless(codec::exec)))),
         "decoder" => Some((decoder::gen, Box::new(Stateless(decoder::exec)))),
         "diag" => Some((diag::gen, Box::new(diag::Exec::default()))),
